@@ -290,7 +290,7 @@ func Gen(r *rand.Rand, cfg GenCfg, id int) *World {
 		if owner == sU && len(unions) > 0 && g.chance(0.25) {
 			return TypeRef{Name: unions[0], List: g.chance(0.5), ElemNN: g.chance(0.5)}
 		}
-		if cfg.Wide && g.chance(0.12) {
+		if cfg.Wide && g.chance(0.22) {
 			g.tag["scalar-list"] = true
 			return TypeRef{Name: scalarNames[g.pick(3)], List: true, NN: g.chance(0.3), ElemNN: g.chance(0.5)}
 		}
@@ -672,7 +672,7 @@ func renderArgValKey(v ArgVal) string {
 
 type opgen struct {
 	named   map[string][]*Sel // named fragments created so far, by type condition
-	via     string // url of the service that owns the field through which the current selection set was reached
+	via     string            // url of the service that owns the field through which the current selection set was reached
 	g       *gen
 	op      *Op
 	alias   int
@@ -704,19 +704,24 @@ func GenOp(r *rand.Rand, w *World, cfg GenCfg, kind string) *Op {
 	for i := 0; i < n && i < len(perm); i++ {
 		og.op.Sel = append(og.op.Sel, og.field(root, td.Order[perm[i]], 1))
 	}
-	if cfg.Wide && kind == "query" && len(og.op.Sel) >= 2 && g.chance(0.3) {
+	if cfg.Wide && kind == "query" && len(og.op.Sel) >= 2 && g.chance(0.7) {
 		// a response key that spells the path to a field selected elsewhere: a.b next to "a_b"
-		first := og.op.Sel[0]
-		for _, c := range first.Sub {
-			if c.K == "F" && len(c.Sub) > 0 {
-				for _, other := range og.op.Sel[1:] {
-					if other.K == "F" && len(other.Sub) > 0 {
+	pairs:
+		for i, first := range og.op.Sel {
+			if first.K != "F" {
+				continue
+			}
+			for _, c := range first.Sub {
+				if c.K != "F" || len(c.Sub) == 0 {
+					continue
+				}
+				for j, other := range og.op.Sel {
+					if j != i && other.K == "F" && len(other.Sub) > 0 && other.Name != "node" {
 						other.Key = first.Key + "_" + c.Key
 						og.tag["path-alias"] = true
-						break
+						break pairs
 					}
 				}
-				break
 			}
 		}
 	}
